@@ -259,10 +259,13 @@ func main() {
 			var sgWords []string
 			for i, n := 0, r.Range(1, 3); i < n; i++ {
 				nb := tsSec - int64([]int{0, 1, 100, 100000}[r.Intn(4)])
-				if r.Chance(6) {
-					nb = tsSec + 10
-				}
 				na := nowSec + bs[r.Intn(len(bs))]
+				if r.Chance(15) { // certificate roll-over: a newer signer, not yet valid at the segment timestamp
+					nb = tsSec + int64(r.Range(1, 600))
+					if r.Bool() {
+						na = nowSec + 2000000
+					}
+				}
 				if r.Chance(25) { // around ts + ExpTimeToDuration(e) for a random e (half-second grid)
 					ex := int64(r.Intn(256))
 					na = tsSec + ((ex+1)*3375)/10 + int64(r.Intn(3)) - 1
@@ -412,6 +415,10 @@ func main() {
 			}
 			hopEnd := time.Unix(tsSec, 0).Add(path.ExpTimeToDuration(exp))
 			for _, s := range sgs {
+				if s.(sgn).idx == usedIdx && s.Validity().NotBefore.After(time.Unix(tsSec, 0)) {
+					bad("signer-not-valid-at-timestamp", fmt.Sprintf("the entry is signed by a signer valid from %s only, after the segment timestamp %s: "+
+						"it cannot be verified for the hop's validity period", s.Validity().NotBefore.UTC(), time.Unix(tsSec, 0).UTC()))
+				}
 				if s.(sgn).idx == usedIdx && hopEnd.After(s.Validity().NotAfter) {
 					bad("expiry-signer", fmt.Sprintf("hop expires %s, after the signer used (%s)", hopEnd.UTC(), s.Validity().NotAfter.UTC()))
 				}
